@@ -20,7 +20,7 @@ CLAIMS = {
             'trusted: as C01; wf clause unique_at_line assumed; code-lens / call-hierarchy / CLI counts glue not covered', '§5-C04'),
     'C16': ('proof', 'Scope mismatch: detect_scope_mismatches_in_file (after fix 898ebb4) is proved sound AND complete against is_mismatch — a pair (F, D) is reported iff D is the definition the proved resolver selects from F\'s file for one of F\'s dependencies (own name -> overridden parent) and rank(F.scope) > rank(D.scope). Cycles: compute_fixture_cycles is proved SOUND (every reported path is a closed chain of the first-definition name graph, reported on the right fixture) and terminating (lexicographic measure over the explicit DFS stack); completeness and run-independence do not hold on the real code: known findings F-16b (graph from first()) and F-16c (hash-ordered DFS roots).',
             'trusted: as C01; HashMap/HashSet shims; sort/join key model; derive(PartialOrd) via Kani', '§5-C16'),
-    'C17': ('proof', 'Precision clause, availability part: is_available_fixture is proved to return true exactly when some registered definition of the name is in the same file, in a conftest.py whose directory is a prefix of the file path, a plugin or third-party definition; lemmas: a name no fixture carries is never available, a name is never available merely because an unrelated module defines it. Scanner (unit undeclared_scan): scan_function_body_for_undeclared_fixtures, collect_local_variables, bind_local, visit_stmt_for_names, visit_expr_for_names are proved equal to recursive spec functions over the real AST (every field of every pushed finding, frame); lemmas from the property text: a finding is never a declared parameter, a module-level/imported name, an unavailable name, or a name with a recorded binder on an earlier line however often it is re-bound (after fixes F-17a/b); every plain use in the visited forms (call target/argument incl. keyword/starred, attribute base, boolean/conditional/binary/unary/compare operand, subscript/slice, list/tuple/set/dict element; in expression/assignment/return/if/while/for/with/try/raise/assert statements) is flagged at exactly (line, col(start), col(end)) (after fix F-17c); what remains unvisited/unrecorded is stated as lemmas and listed as known findings F-17d/F-17e. The quick-fix handler (unit handlers_diag) is under contract structurally: one action per matching undeclared diagnostic, one empty-range TextEdit on the enclosing function's recorded line; the text search that places it is uninterpreted (not covered).',
+    'C17': ('proof', 'Precision clause, availability part: is_available_fixture is proved to return true exactly when some registered definition of the name is in the same file, in a conftest.py whose directory is a prefix of the file path, a plugin or third-party definition; lemmas: a name no fixture carries is never available, a name is never available merely because an unrelated module defines it. Scanner (unit undeclared_scan): scan_function_body_for_undeclared_fixtures, collect_local_variables, bind_local, visit_stmt_for_names, visit_expr_for_names are proved equal to recursive spec functions over the real AST (every field of every pushed finding, frame); lemmas from the property text: a finding is never a declared parameter, a module-level/imported name, an unavailable name, or a name with a recorded binder on an earlier line however often it is re-bound (after fixes F-17a/b); every plain use in the visited forms (call target/argument incl. keyword/starred, attribute base, boolean/conditional/binary/unary/compare operand, subscript/slice, list/tuple/set/dict element; in expression/assignment/return/if/while/for/with/try/raise/assert statements) is flagged at exactly (line, col(start), col(end)) (after fix F-17c); what remains unvisited/unrecorded is stated as lemmas and listed as known findings F-17d/F-17e. The quick-fix handler (unit handlers_diag) is under contract structurally: one action per matching undeclared diagnostic, one empty-range TextEdit on the enclosing function\'s recorded line; the text search that places it is uninterpreted (not covered).',
             'trusted: as C01 plus Path helper expressions moved into external_body helpers with assumed contracts', '§5-C17'),
     'C18': ('proof', 'The offered-set algebra of completion is proved exactly: filter_and_enrich_fixtures returns available filtered by !excluded in order, is_fixture_excluded/should_exclude_fixture/fixture_sort_priority equal their specs (self/cls, declared params, current fixture, narrower scope; same-file 0 < project 1 < plugin 2 < third-party 3); lemmas: every name once, excluded never offered. The AST path of get_completion_context (get_func_context, get_function_completion_context, check_decorator_context, cursor_inside_usefixtures_call) is proved exactly: first enclosing test/fixture function in statement order incl. class recursion, declared_params = all parameter kinds, scope of the first scoped fixture decorator; the text fallback is uninterpreted.',
             'trusted: extractor incl. //@item, format! builders uninterpreted, derive(PartialOrd) via Kani', '§5-C18'),
